@@ -8,7 +8,8 @@ from .astutil import norm
 from .loader import FuncInfo
 
 VERIF = os.path.dirname(os.path.dirname(os.path.dirname(os.path.abspath(__file__))))
-RESTRUCTURED_LIMIT = 12      # more differing statements than this: the function was rewritten, not edited
+RESTRUCTURED_LIMIT = 12      # more differing statements than this (and less than RESTRUCTURED_LIMIT_SIM similar): rewritten, not edited
+RESTRUCTURED_LIMIT_SIM = 0.8
 RESTRUCTURED_SIM = 0.35      # ... or less than this similarity with at least RESTRUCTURED_MIN differing statements (small functions)
 RESTRUCTURED_MIN = 6
 # Verdicts of the dataflow / abstract-interpretation engines and "bad construct found" rules do not depend on the statement shape of
@@ -153,7 +154,7 @@ class Report:
         for o in self.obs:
             if o.status == 'violation' and not o.rule.startswith(SHAPE_INDEPENDENT.get(self.pid, ('\0',))):
                 ds = self._distance(o)
-                if ds is not None and (ds[0] > RESTRUCTURED_LIMIT or (ds[1] < RESTRUCTURED_SIM and ds[0] >= RESTRUCTURED_MIN)):
+                if ds is not None and ((ds[0] > RESTRUCTURED_LIMIT and ds[1] < RESTRUCTURED_LIMIT_SIM) or (ds[1] < RESTRUCTURED_SIM and ds[0] >= RESTRUCTURED_MIN)):
                     o.status = 'undecided'
                     undecided.setdefault((o.module, o.function, ds), []).append(o.rule)
         for (mod_, fn_, ds), rules in sorted(undecided.items()):
